@@ -19,7 +19,7 @@ func init() {
 	property("C05",
 		"Static conformance: the optimize flag is read only to choose the order in which the same chunk map is rendered (flag confinement), jump suppression is decided at render time against the actual next chunk (C01.f, both directions), every registered label is referenced on every path after its registration (no label without a reference), the order is a duplicate-free list starting at chunk 0 (C04.f) chosen without map-order dependence (C17.a).",
 		[]string{"scheme argument of DESIGN §4 C05: with C01.f the text of each chunk transfers control to the same successors whatever the order"},
-		"C05.a", "C05.c", "C01.f", "C04.a", "C04.b", "C04.f", "C17.a", "C17.f")
+		"C05.a", "C05.c", "C01.f", "C04.a", "C04.b", "C04.f", "C17.a", "C17.f", "C20.e")
 
 	register(&Rule{ID: "C04.a", Doc: "every label reference uses the script name and an id registered before it on every path", Floor: 17, Run: c04a})
 	register(&Rule{ID: "C04.b", Doc: "labels rendered iff entry or registered; every chunk rendered once with its own body; next-chunk id computed from the order", Floor: 8, Run: c04b})
